@@ -1299,7 +1299,7 @@ class ClassNode(AstNode, NamespaceMixin):
             ]
         )
 
-    def add_namespace(self, **kwargs):
+    def add_namespace(self, *args, **kwargs):
         """Replace method inherited from NamespaceMixin."""
         raise RuntimeError("Cannot add a namespace to a class")
 
